@@ -10,12 +10,17 @@
   3. code -> model: every execution of the real code explored by the deviation-bounded scheduler (sched_conform --dump) is given to the
      -DFOLLOW acceptor of the model, which must accept it as one of its complete runs; for the small configurations the two trace SETS
      must be equal (all schedules of the code = all runs of the model)
+What is a violation of C18 and what is not: a disagreement between model and code (a trace of one that the other does not have) only says that
+the model no longer describes the code (for instance after a harmless restructuring of the locking); it is reported as a note, the unit is
+'incomplete' (the Spin result then says nothing about this tree) and the verdict is left to the direct exploration of sched_surrogate.
+An error found by Spin (deadlock = invalid end state, assertion) is a violation only after its counterexample trace has been followed on the
+real code and the code has really deadlocked / broken the per-execution oracle there; otherwise it is again 'model not bound'.
 Records go to stdout in the JSONL format of engines/README.md.
 """
 import sys, os, json, subprocess, time, hashlib, shutil, argparse
 
 ROOT = os.path.dirname(os.path.dirname(os.path.dirname(os.path.abspath(__file__))))
-MODEL = os.path.join(ROOT, "models", "surrogate_protocol.pml")
+MODEL = os.environ.get("VERIF_MODEL", os.path.join(ROOT, "models", "surrogate_protocol.pml"))   # VERIF_MODEL: self-test with a mutated model
 T0 = time.time()
 
 def emit(rec):
@@ -52,6 +57,36 @@ def parse_pan(out):
         if "max search depth too small" in l or "out of memory" in l or "Search not completed" in l: incomplete = True
     return st, tr, errors, incomplete
 
+def confirm_on_code(harness, wd, defs, nw, b, depth, what, unit, panout, a):
+    """a counterexample of Spin counts only if the real code follows its trace and fails there too"""
+    hp = build_pan(wd, "c_%d_%d_%d" % (nw, b, depth), defs + ["-DHIST"])
+    if not hp: return
+    d = os.path.dirname(hp)
+    sh([hp, "-m1000000", "-c1"], cwd=d, timeout=600)
+    rc, out = sh(["spin", "-t", "-g"] + defs + ["-DHIST", "m.pml"], cwd=d, timeout=120)
+    hist = {}; hn = 0
+    for l in out.splitlines():
+        l = l.strip()
+        if l.startswith("hist[") and "=" in l: hist[int(l[5:l.index("]")])] = int(l.split("=")[1])
+        elif l.startswith("hn ="): hn = int(l.split("=")[1])
+    tr = " ".join("%d:%d" % (hist.get(i, 0) // 16, hist.get(i, 0) % 16) for i in range(hn))
+    fn = os.path.join(d, "cex.txt"); open(fn, "w").write(tr + "\n")
+    rc, out = sh([harness, "--follow", fn, "--workers", "1", "--nw", str(nw), "--budget", str(b), "--depth", str(depth)], cwd=ROOT)
+    fl = [l for l in out.splitlines() if l.startswith("F ")]; recs = [l for l in out.splitlines() if l.startswith("{")]
+    f = [x.strip() for x in fl[0][2:].split("|")] if fl else ["?", "?", "", "", "[]"]
+    status = f[1]; got = f[3] if len(f) > 3 else ""
+    follows = got.startswith(tr.strip()) or tr.strip().startswith(got)       # the code performed the operations of the counterexample as far as either goes
+    bad = status.split()[0] in ("DEADLOCK", "LIVELOCK", "TIMEOUT", "SANITIZER", "DIED") or bool(recs)
+    if follows and bad:
+        for r in recs: sys.stdout.write(r + "\n")
+        if not recs:
+            emit({"t": "viol", "sig": "C18:constructSurrogate:" + status.split()[0].lower() + ":spin-counterexample", "unit": unit,
+                  "case": {"nw": nw, "budget": b, "depth": depth, "mode": "verify", "trace": tr, "choices": f[4] if len(f) > 4 else "[]"},
+                  "detail": "Spin: %s in the protocol model (%d workers, budget %d, pool %d); the real constructSurrogate<mode_parallel> follows the counterexample [%s] and ends with %s" % (what, nw, b, 2 ** depth + 1, tr, status)})
+    else:
+        emit({"t": "note", "text": "MODEL-NOT-BOUND %s: Spin reports '%s' but the real code does not fail on the counterexample [%s] (status %s, operations [%s]): the model does not describe this tree, its result is not used" % (unit, what, tr, status, got)})
+        emit({"t": "incomplete", "unit": unit})
+
 def main():
     ap = argparse.ArgumentParser()
     ap.add_argument("--tier", default="quick"); ap.add_argument("--deadline", type=float, default=0); ap.add_argument("--workers", type=int, default=8)
@@ -66,16 +101,18 @@ def main():
         v = json.load(open(a.replay)); c = v.get("case", {})
         if isinstance(c, str): c = json.loads(c)
         # a conformance violation is replayed by running the two sides again for its configuration
-        a.only = (c.get("nw"), c.get("budget"), c.get("noyield"))
+        a.only = (c.get("nw"), c.get("budget"), bool(c.get("noyield")))
     else:
         a.only = None
     thorough = (a.tier == "thorough")
     units_total = units_done = 0; exhaustive = True
 
     # ---- 1. verification over all interleavings
-    vcfg = [(2, 1, 3), (2, 2, 3), (2, 3, 3), (2, 4, 3), (3, 2, 3), (3, 3, 3), (2, 3, 5), (3, 4, 6)]
-    if thorough: vcfg += [(3, 5, 8), (4, 3, 3), (4, 4, 6), (3, 6, 6), (4, 5, 8)]
-    for nw, b, pool in ([] if a.only else vcfg):
+    # (workers, budget, depth): the pool is the 1-D local polynomial grid of that depth, 2^depth + 1 points
+    vcfg = [(2, 1, 1), (2, 2, 1), (2, 3, 1), (2, 4, 1), (3, 2, 1), (3, 3, 1), (2, 3, 2), (3, 4, 2)]
+    if thorough: vcfg += [(3, 5, 2), (4, 3, 1), (4, 4, 2), (3, 6, 3), (4, 5, 3), (4, 6, 3)]
+    for nw, b, depth in ([] if a.only else vcfg):
+        pool = 2 ** depth + 1
         units_total += 1
         if late(): exhaustive = False; emit({"t": "incomplete", "unit": "verify:w%d:b%d:p%d" % (nw, b, pool)}); continue
         defs = ["-DNW=%d" % nw, "-DBUDGET=%d" % b, "-DPOOL=%d" % pool]
@@ -89,26 +126,27 @@ def main():
         unit = "model-verify:w%d:b%d:pool%d" % (nw, b, pool)
         if errors != 0:
             what = "assertion violated" if "assertion violated" in out else ("invalid end state" if "invalid end state" in out else "error")
-            emit({"t": "viol", "sig": "C18:model:" + what.replace(" ", "-"), "unit": unit, "case": {"nw": nw, "budget": b, "pool": pool, "mode": "verify"},
-                  "detail": "Spin reports %s for the protocol model with %d workers, budget %d, pool %d: %s" % (what, nw, b, pool, " ".join(out.split())[:900])})
+            confirm_on_code(harness, wd, defs, nw, b, depth, what, unit, out, a)
+            exhaustive = False
         if inc or st < 0: exhaustive = False; emit({"t": "incomplete", "unit": unit})
         else: units_done += 1
         emit({"t": "unit", "unit": unit, "states": max(st, 0), "transitions": max(tr, 0), "execs": 0, "evals": 1, "distinct": max(st, 0), "complete": not inc and st >= 0})
 
     # ---- 2 + 3. binding. scenario indices in surrogate_body.inc: 13.. = w2 b1,b2,b3,b4 ; w3 b2,b3 (pool 3)
-    SC = {(2, 1): 13, (2, 2): 14, (2, 3): 15, (2, 4): 16, (3, 2): 17, (3, 3): 18}
-    # (nw, budget, noyield, all_traces?, impl bound)
-    bcfg = [(2, 1, False, True, 99), (2, 1, True, True, 99), (2, 2, False, False, 2), (2, 3, True, False, 2), (3, 2, True, False, 1)]
-    if thorough: bcfg += [(2, 2, True, False, 3), (2, 3, False, False, 3), (2, 4, False, False, 2), (3, 2, False, False, 2), (3, 3, False, False, 2), (3, 3, True, False, 2)]
-    for nw, b, noy, alltr, ibound in bcfg:
+    # (nw, budget, depth, noyield, all_traces?, impl bound)
+    bcfg = [(2, 1, 1, False, True, 99), (2, 1, 1, True, True, 99), (2, 2, 1, False, False, 2), (2, 3, 1, True, False, 2), (3, 2, 1, True, False, 1), (2, 3, 2, True, False, 1)]
+    if thorough: bcfg += [(2, 2, 1, True, False, 3), (2, 3, 1, False, False, 3), (2, 4, 1, False, False, 2), (3, 2, 1, False, False, 2), (3, 3, 1, False, False, 2), (3, 3, 1, True, False, 2),
+                          (3, 4, 2, True, False, 2), (4, 4, 2, True, False, 1), (3, 6, 3, True, False, 1), (2, 1, 2, False, True, 99)]
+    for nw, b, depth, noy, alltr, ibound in bcfg:
         if a.only and a.only != (nw, b, noy): continue
-        unit = "bind:w%d:b%d:pool3:%s:%s" % (nw, b, "noyield" if noy else "yield", "all-traces" if alltr else "impl-bound-%d" % ibound)
+        unit = "bind:w%d:b%d:pool%d:%s:%s" % (nw, b, 2 ** depth + 1, "noyield" if noy else "yield", "all-traces" if alltr else "impl-bound-%d" % ibound)
         units_total += 1
         if late(): exhaustive = False; emit({"t": "incomplete", "unit": unit}); continue
-        case = {"nw": nw, "budget": b, "noyield": noy, "mode": "bind"}
-        defs = ["-DNW=%d" % nw, "-DBUDGET=%d" % b, "-DPOOL=3"] + (["-DNOYIELD"] if noy else [])
-        hflags = ["--sc", str(SC[(nw, b)])] + (["--noyield"] if noy else [])
-        tag = "%d_%d_%d" % (nw, b, 1 if noy else 0)
+        case = {"nw": nw, "budget": b, "depth": depth, "noyield": noy, "mode": "bind"}
+        defs = ["-DNW=%d" % nw, "-DBUDGET=%d" % b, "-DPOOL=%d" % (2 ** depth + 1)] + (["-DNOYIELD"] if noy else [])
+        hflags = ["--nw", str(nw), "--budget", str(b), "--depth", str(depth)] + (["--noyield"] if noy else [])
+        tag = "%d_%d_%d_%d" % (nw, b, depth, 1 if noy else 0)
+        notbound = []
         # implementation side: all executions within the bound
         rc, out = sh([harness, "--dump", "--bound", str(ibound)] + hflags + (["--deadline", str(max(10, deadline - time.time()))] if deadline else []), cwd=ROOT)
         impl = []; complete = False
@@ -134,9 +172,7 @@ def main():
                 p, tr, fn = procs.pop(0); o = p.communicate()[0]
                 if "ACCEPTED" not in o:
                     rejected += 1
-                    if rejected <= 3:
-                        emit({"t": "viol", "sig": "C18:model-binding:code-trace-not-in-model", "unit": unit, "case": dict(case, trace=tr),
-                              "detail": "an execution of constructSurrogate<mode_parallel> (%d workers, budget %d) performs the operation sequence [%s] (thread:operation, 1 create 2 lock 3 unlock 4 wait 5 signal 6 broadcast 7 join 8 exit 9 model-begin 10 model-end), which is not a run of models/surrogate_protocol.pml" % (nw, b, tr)})
+                    if rejected <= 2: notbound.append("the code performs [%s], which is not a run of the model" % tr)
                 os.unlink(fn)
         for i, tr in enumerate(uniq):
             fn = os.path.join(tdir, "t%d.txt" % i); open(fn, "w").write(tr.replace(" ", "\n") + "\n")
@@ -161,19 +197,18 @@ def main():
                     nf += 1; f = [x.strip() for x in l[2:].split("|")]
                     if f[0] != "ok":
                         mism += 1
-                        if mism <= 3: emit({"t": "viol", "sig": "C18:model-binding:model-trace-not-reproduced", "unit": unit, "case": dict(case, trace=f[2]),
-                                            "detail": "the run [%s] of models/surrogate_protocol.pml is not an execution of the real code: following it gives status %s and operations [%s]" % (f[2], f[1], f[3])})
+                        if mism <= 2: notbound.append("the run [%s] of the model is not an execution of the code: following it gives status %s and operations [%s]" % (f[2], f[1], f[3]))
             if nf != len(mtr): emit({"t": "error", "what": "followed %d of %d model traces: %s" % (nf, len(mtr), out[-300:])})
-            if complete and set(uniq) != set(mtr) and mism == 0 and rejected == 0:
-                emit({"t": "viol", "sig": "C18:model-binding:trace-sets-differ", "unit": unit, "case": case, "detail": "code: %d distinct traces, model: %d" % (len(uniq), len(mtr))})
+            if complete and set(uniq) != set(mtr) and mism == 0 and rejected == 0: notbound.append("code: %d distinct traces, model: %d" % (len(uniq), len(mtr)))
             os.unlink(fn)
-        ok = complete and not late()
+        ok = complete and not late() and not notbound
+        for nb in notbound: emit({"t": "note", "text": "MODEL-NOT-BOUND %s: %s (the model does not describe this tree; the Spin results are not used, the verdict rests on the direct exploration)" % (unit, nb)})
         if ok: units_done += 1
         else: exhaustive = False; emit({"t": "incomplete", "unit": unit})
         emit({"t": "unit", "unit": unit, "states": len(uniq), "transitions": sum(len(t.split()) for t in uniq), "execs": len(impl) + ntr_model, "evals": len(uniq) + ntr_model,
               "distinct": len(uniq), "complete": ok})
-        emit({"t": "note", "text": "%s: %d executions of the code (%d distinct operation traces) all accepted by the model%s" % (unit, len(impl), len(uniq),
-              ("; all %d traces of the model reproduced by the code; trace sets equal" % ntr_model) if alltr and mism == 0 and rejected == 0 else "")})
+        if not notbound: emit({"t": "note", "text": "%s: %d executions of the code (%d distinct operation traces) all accepted by the model%s" % (unit, len(impl), len(uniq),
+              ("; all %d traces of the model reproduced by the code; trace sets equal" % ntr_model) if alltr else "")})
     emit({"t": "sample", "case": {"binding": "one model step = one scheduling block of engines/sched/sched.hpp", "trace_alphabet": "thread:operation"}})
     emit({"t": "summary", "units_total": units_total, "units_done": units_done, "exhaustive": exhaustive and units_done == units_total,
           "bound": "Spin: all interleavings of the protocol model per configuration; binding: all schedules (small configurations) or all schedules within the stated deviation bound, every one checked against the model, and every model trace replayed on the code"})
